@@ -29,10 +29,17 @@ CONFIGS = {
             "vls_protocol_client", "vls_util", "vls_common",
         ],
     ),
-    # production library: no test_utils
-    "core_prod": (
-        ["-p", "vls-core", "--no-default-features", "--features", "std"],
-        ["lightning_signer"],
+    # production signer stack: no test_utils anywhere (vls-persist's default feature set enables it)
+    "signer_prod": (
+        ["-p", "vls-protocol-signer", "-p", "vls-persist", "--no-default-features", "--features",
+         "vls-protocol-signer/std,vls-persist/std,vls-persist/kvv,vls-persist/redb-kvv"],
+        ["lightning_signer", "vls_protocol", "vls_protocol_signer", "vls_persist"],
+    ),
+    # embedded profile (what vls-signer-stm32 enables): no_std + the two workarounds
+    "signer_embedded": (
+        ["-p", "vls-protocol-signer", "--no-default-features", "--features",
+         "no-std,secp-lowmemory,tracker_size_workaround,timeless_workaround"],
+        ["lightning_signer", "vls_protocol", "vls_protocol_signer"],
     ),
     # developer message set
     "proto_dev": (
